@@ -1,5 +1,7 @@
 package main
 
+import "strings"
+
 func init() {
 	replayGens["redis.(*scanRequest).Convert$2"] = replayScanEmptyReply
 }
@@ -277,7 +279,7 @@ func init() {
 
 // an error reply built from client-controlled text containing CR LF is written as more than one frame
 func replayErrorReplyLineBreak(rc *ReplayCtx) (string, string, string, bool) {
-	if rc.o.Kind != "post" {
+	if rc.o.Kind != "post" || !strings.Contains(rc.o.Name, "one-line") {
 		return "", "", "", false
 	}
 	src := `package redis
